@@ -5,6 +5,7 @@ mod acct;
 mod cli;
 mod docs;
 mod pc01;
+mod pc10;
 mod pc11;
 mod pc17;
 mod phrase;
@@ -29,6 +30,7 @@ fn main() {
     match id.as_str() {
         "C01" => pc01::run_c01(ctx),
         "C14" => pc01::run_c14(ctx),
+        "C10" => pc10::run(ctx),
         "C11" => pc11::run(ctx),
         "C17" => pc17::run(ctx),
         "C12" => pc12::run(ctx),
